@@ -8,6 +8,8 @@ import (
 
 	"github.com/cloudwego/dynamicgo/conv"
 	"github.com/cloudwego/dynamicgo/conv/t2j"
+	dhttp "github.com/cloudwego/dynamicgo/http"
+	"github.com/cloudwego/dynamicgo/meta"
 	"github.com/cloudwego/dynamicgo/thrift"
 	"github.com/cloudwego/dynamicgo/thrift/base"
 	"github.com/cloudwego/dynamicgo/thrift/generic"
@@ -234,12 +236,56 @@ func enumLengths(yield func(core.Case) bool) {
 
 // ---------- family: message envelope ----------
 
+const envelopeIDL = "namespace go verif\nstruct R {\n  1: i32 a\n  2: string b\n}\nexception E {\n  1: string m\n}\nservice Svc {\n  R Method(1: R req) throws (1: E e)\n}\n"
+
+var envelopeFn *thrift.FunctionDescriptor
+
+// envelopeHTTPOps: the response side of the HTTP converter reads the envelope itself (message type, member id).
+func envelopeHTTPOps() []top {
+	mk := func(name string, into bool) top {
+		return top{name: name, run: func(sd *tseed, in []byte) string {
+			if envelopeFn == nil {
+				svc, err := thrift.Options{}.NewDescritorFromContent(context.Background(), "a/b/main.thrift", envelopeIDL, nil, false)
+				if err != nil {
+					return "harness-idl"
+				}
+				envelopeFn = svc.Functions()["Method"]
+			}
+			hc := t2j.NewHTTPConv(meta.EncodingThriftBinary, envelopeFn)
+			resp := dhttp.NewHTTPResponse()
+			var err error
+			if into {
+				buf := make([]byte, 0, 16)
+				err = hc.DoInto(context.Background(), resp, in, &buf, conv.Options{EnableHttpMapping: true})
+			} else {
+				err = hc.Do(context.Background(), resp, in, conv.Options{EnableHttpMapping: true})
+			}
+			return errClass(err)
+		}}
+	}
+	return []top{mk("t2j.HTTPConv.Do(envelope)", false), mk("t2j.HTTPConv.DoInto(envelope)", true)}
+}
+
 func enumEnvelope(yield func(core.Case) bool) {
+	var ops []top
+	for _, o := range thriftReaderOps() {
+		if o.name == "thrift.BinaryProtocol.ReadMessageBegin" || o.name == "thrift.UnwrapBinaryMessage" {
+			ops = append(ops, o)
+		}
+	}
+	// a CALL as the envelope parsers see it, and a REPLY (member id 0) as the response converter expects it
+	if !enumEnvelopeOf(0x80010001, ops, yield) {
+		return
+	}
+	enumEnvelopeOf(0x80010002, append(ops, envelopeHTTPOps()...), yield)
+}
+
+func enumEnvelopeOf(version uint32, ops []top, yield func(core.Case) bool) bool {
 	g := &tbin.Gen{}
 	body := tbin.Bytes(g.Build(tbin.StructS(tbin.SF(1, tbin.Sc(tbin.I32)), tbin.SF(2, tbin.Sc(tbin.STRING))), 1))
 	name := "Method"
 	var ref []byte
-	ref = binary.BigEndian.AppendUint32(ref, 0x80010001)
+	ref = binary.BigEndian.AppendUint32(ref, version)
 	ref = binary.BigEndian.AppendUint32(ref, uint32(len(name)))
 	ref = append(ref, name...)
 	ref = binary.BigEndian.AppendUint32(ref, 7)
@@ -247,13 +293,8 @@ func enumEnvelope(yield func(core.Case) bool) {
 	hdr := len(ref)
 	ref = append(ref, body...)
 	ref = append(ref, 0)
-	var ops []top
-	for _, o := range thriftReaderOps() {
-		if o.name == "thrift.BinaryProtocol.ReadMessageBegin" || o.name == "thrift.UnwrapBinaryMessage" {
-			ops = append(ops, o)
-		}
-	}
 	emit := func(fault string, b []byte) bool {
+		fault = fmt.Sprintf("type=%d ", version&0xff) + fault
 		for _, op := range ops {
 			if !yield(shortCase(op, nil, "envelope "+fault, b, nil)) {
 				return false
@@ -262,11 +303,11 @@ func enumEnvelope(yield func(core.Case) bool) {
 		return true
 	}
 	if !emit("intact", ref) {
-		return
+		return false
 	}
 	for k := 0; k < len(ref); k++ {
 		if !emit(fmt.Sprintf("truncated to %d", k), ref[:k]) {
-			return
+			return false
 		}
 	}
 	// every header byte x substitution alphabet
@@ -281,7 +322,7 @@ func enumEnvelope(yield func(core.Case) bool) {
 			m := append([]byte{}, ref...)
 			m[off] = x
 			if !emit(fmt.Sprintf("byte %d %02x->%02x", off, ref[off], x), m) {
-				return
+				return false
 			}
 		}
 	}
@@ -290,7 +331,7 @@ func enumEnvelope(yield func(core.Case) bool) {
 		m := append([]byte{}, ref...)
 		binary.BigEndian.PutUint32(m[4:], n)
 		if !emit(fmt.Sprintf("name length -> %d", n), m) {
-			return
+			return false
 		}
 	}
 	// version word x {positive, wrong version, all type bits}
@@ -298,9 +339,10 @@ func enumEnvelope(yield func(core.Case) bool) {
 		m := append([]byte{}, ref...)
 		binary.BigEndian.PutUint32(m[0:], v)
 		if !emit(fmt.Sprintf("version word -> %08x", v), m) {
-			return
+			return false
 		}
 	}
+	return true
 }
 
 // ---------- family: nesting depth ----------
@@ -484,4 +526,33 @@ func baseRespOps() []top {
 		mk("t2j.BinaryConv.Do(thriftBase,ctx BaseResp)", true, conv.Options{EnableThriftBase: true}),
 		mk("t2j.BinaryConv.Do(thriftBase,no ctx)", false, conv.Options{EnableThriftBase: true}),
 	}
+}
+
+// ---------- value mapping (api.js_conv): the annotation's own reader works on the raw message ----------
+
+const jsconvIDL = "namespace go verif\nstruct Root {\n  1: i64 x (api.js_conv = \"true\")\n  2: list<i64> l (api.js_conv = \"true\")\n  3: list<double> d (api.js_conv = \"true\")\n  4: list<string> s (api.js_conv = \"true\")\n  5: i32 y (api.js_conv = \"true\")\n  6: list<i16> h (api.js_conv = \"true\")\n}\nservice Svc {\n  Root M(1: Root req)\n}\n"
+
+var jsconvDesc *thrift.TypeDescriptor
+
+func jsconvSeeds() []*tseed {
+	i64l := tbin.ListS(tbin.Sc(tbin.I64))
+	root := tbin.StructS(tbin.SF(1, tbin.Sc(tbin.I64)), tbin.SF(2, i64l), tbin.SF(3, tbin.ListS(tbin.Sc(tbin.DOUBLE))), tbin.SF(4, tbin.ListS(tbin.Sc(tbin.STRING))), tbin.SF(5, tbin.Sc(tbin.I32)), tbin.SF(6, tbin.ListS(tbin.Sc(tbin.I16))))
+	v := tbin.Struct(tbin.F(1, tbin.I64v(1<<53+1)), tbin.F(2, tbin.List(tbin.I64, tbin.I64v(-1), tbin.I64v(7))), tbin.F(3, tbin.List(tbin.DOUBLE, tbin.Double(1.5))),
+		tbin.F(4, tbin.List(tbin.STRING, tbin.Str("12"))), tbin.F(5, tbin.I32v(-3)), tbin.F(6, tbin.List(tbin.I16, tbin.I16v(300))))
+	return []*tseed{{name: "Root{js_conv scalars and lists}", shape: root, val: v, ref: tbin.Bytes(v)}}
+}
+
+func jsconvOps() []top {
+	return []top{{name: "t2j.BinaryConv.Do(valueMapping,js_conv)", struct_: true, run: func(sd *tseed, in []byte) string {
+		if jsconvDesc == nil {
+			svc, err := thrift.Options{}.NewDescritorFromContent(context.Background(), "a/b/main.thrift", jsconvIDL, nil, false)
+			if err != nil {
+				return "harness-idl"
+			}
+			jsconvDesc = svc.Functions()["M"].Response().Struct().FieldById(0).Type()
+		}
+		cv := t2j.NewBinaryConv(conv.Options{EnableValueMapping: true})
+		_, err := cv.Do(context.Background(), jsconvDesc, in)
+		return errClass(err)
+	}}}
 }
